@@ -48,7 +48,8 @@ def init_part(rng, c, sim, styles=("list", "single", "rho", "default")):
         rest = [u for u in nodes if u not in used]
         if rest:
             c["recs"] = rng.sample(rest, rng.randint(1, min(2, len(rest))))
-    c["tmin"] = str(rng.choice([F(0), F(0), F(1), F(-1, 2), F(5, 2)]))
+    # 16384: a run continued in "calendar time" — absolute tolerances (isclose-style comparisons with tmin) become visible
+    c["tmin"] = str(rng.choice([F(0), F(0), F(1), F(-1, 2), F(5, 2), F(16384)]))
 
 
 def gen_case(rng, sim, nmax=8):
